@@ -2,6 +2,7 @@ package sim
 
 import (
 	"fmt"
+	"math"
 	"sort"
 	"strings"
 	"time"
@@ -50,7 +51,7 @@ type ASG struct {
 
 // FleetPlan controls how the next CreateFleet calls answer.
 type FleetPlan struct {
-	Mode       int           // 0 = everything asked for; 1 = nothing + errors; 2 = partial when the request allows it, else nothing + errors
+	Mode       int           // 0 = everything asked for; 1 = nothing + errors; 2 = partial when the request allows it, else nothing + errors; 3 = fewer instances than asked for plus errors, whatever the request allows (direct checks only)
 	PartialNum int           // for mode 2: how many to return (clamped into [min,total-1])
 	Split      int           // number of CreateFleetInstance entries (>=1)
 	WithErrors bool          // also return Errors alongside instances
@@ -61,6 +62,7 @@ type FleetPlan struct {
 	ErrCode    string        // error code returned with WithErrors ("" = InsufficientInstanceCapacity)
 	LateTail   int           // the last LateTail instances of the answer become running 2 s later than the others
 	GoneState  string        // state reported for the never-ready instances ("" = pending)
+	ServeFrom  int           // the request is filled from this override (index modulo their number); target capacity is counted in units of its WeightedCapacity
 }
 
 // FleetErrorCodes are error codes EC2 reports in CreateFleet answers (alongside instances when
@@ -80,6 +82,7 @@ type FleetReq struct {
 	TemplateID      string      `json:"templateID"`
 	TemplateVersion string      `json:"templateVersion"`
 	Overrides       [][2]string `json:"overrides"`
+	Weights         []float64   `json:"weights,omitempty"` // WeightedCapacity per override (1 when absent)
 	Configs         int         `json:"configs"`
 	Tagged          bool        `json:"tagged"`
 	TermWithExpiry  *bool       `json:"termWithExpiry,omitempty"`
@@ -490,6 +493,11 @@ func fleetReq(in *ec2.CreateFleetInput) *FleetReq {
 		}
 		for _, o := range cfg.Overrides {
 			r.Overrides = append(r.Overrides, [2]string{awsapi.StringValue(o.SubnetId), awsapi.StringValue(o.InstanceType)})
+			wgt := 1.0
+			if o.WeightedCapacity != nil && *o.WeightedCapacity > 0 {
+				wgt = *o.WeightedCapacity
+			}
+			r.Weights = append(r.Weights, wgt)
 		}
 	}
 	for _, ts := range in.TagSpecifications {
@@ -536,8 +544,22 @@ func (c *ec2Client) CreateFleet(in *ec2.CreateFleetInput) (*ec2.CreateFleetOutpu
 	}
 	plan := c.a.Fleet
 	count := req.Total
+	if len(req.Weights) > 0 {
+		// target capacity is counted in units; one instance of the serving override is worth its weight
+		if wgt := req.Weights[((plan.ServeFrom%len(req.Weights))+len(req.Weights))%len(req.Weights)]; wgt != 1 {
+			count = int64(math.Ceil(float64(req.Total) / wgt))
+		}
+	}
 	min := req.effMin()
 	switch plan.Mode {
+	case 3:
+		count = int64(plan.PartialNum)
+		if count > req.Total-1 {
+			count = req.Total - 1
+		}
+		if count < 1 {
+			count = map[bool]int64{true: 1, false: 0}[req.Total > 1]
+		}
 	case 1:
 		count = 0
 	case 2:
@@ -560,7 +582,7 @@ func (c *ec2Client) CreateFleet(in *ec2.CreateFleetInput) (*ec2.CreateFleetOutpu
 		}
 	}
 	out := &ec2.CreateFleetOutput{FleetId: awsapi.String("fleet-sim")}
-	if count == 0 || plan.WithErrors {
+	if count == 0 || plan.WithErrors || plan.Mode == 3 {
 		out.Errors = []*ec2.CreateFleetError{{
 			ErrorCode:    awsapi.String(map[bool]string{true: "InsufficientInstanceCapacity", false: plan.ErrCode}[plan.ErrCode == ""]),
 			ErrorMessage: awsapi.String("There is no capacity available that matches your request."),
